@@ -445,7 +445,13 @@ func siteScenarios(r *gen.Rand, thorough bool) []siteScenario {
 		return fmt.Sprintf("d:%d:%d", r.Range(1, 2), r.Range(2, 4))
 	}
 	for i := 0; i < extra; i++ {
-		out = append(out, siteScenario{MT: r.Intn(2), H: op(), C: op()})
+		sc := siteScenario{MT: r.Intn(2), H: op(), C: op()}
+		// two merge runs exclude each other by their own flag (the second returns at once), and the vacuum gate
+		// (mockMerger) is one per process: such pairs say nothing about the index-directory lock
+		if (sc.H[0] == 'm' || sc.H[0] == 'v') && sc.H[0] == sc.C[0] {
+			sc.C = "f:3"
+		}
+		out = append(out, sc)
 	}
 	return out
 }
